@@ -132,6 +132,7 @@ def parse(doc, reify, text=None):
     kw = {"reify": reify, "ppi": cfg["ppi"]}
     if cfg.get("width") is not None:
         kw["width"] = cfg["width"]
+    if cfg.get("height") is not None:
         kw["height"] = cfg["height"]
     if cfg.get("transform"):
         kw["transform"] = cfg["transform"]
